@@ -269,9 +269,31 @@ fn mk_base(name: &'static str, file: File) -> Base {
     Base { name, file, want, canon }
 }
 
-fn check_variant(ctx: &Ctx, fam: &str, base: &Base, case: &dyn Fn() -> String, f: &File) {
+fn check_variant(ctx: &Ctx, fam: &str, base: &Base, case: &dyn Fn() -> String, f: &File, via_file: bool) {
     if !ctx.wants(fam, case) {
         return;
+    }
+    if via_file {
+        // the same variant through the file-backed entry point
+        let bytes = f.encode();
+        // unique per call: two variants may encode to identical bytes and run concurrently
+        static SEQ: std::sync::atomic::AtomicU64 = std::sync::atomic::AtomicU64::new(0);
+        let p = std::env::temp_dir().join(format!("mc-c07-{}-{}.aseprite", std::process::id(), SEQ.fetch_add(1, std::sync::atomic::Ordering::Relaxed)));
+        let r = std::fs::write(&p, &bytes).map_err(|e| e.to_string()).and_then(|_| {
+            let r = std::panic::catch_unwind(|| asefile::AsepriteFile::read_file(&p));
+            let _ = std::fs::remove_file(&p);
+            match r {
+                Ok(Ok(file)) => Ok(observe::observe(&file, &base.want)),
+                Ok(Err(e)) => Err(format!("read_file refused the variant: {}", e)),
+                Err(_) => Err(format!("read_file panicked: {}", observe::take_panic())),
+            }
+        });
+        ctx.eval(1);
+        match r {
+            Ok(o) if o == base.canon => {}
+            Ok(o) => ctx.violation(Violation { family: fam.into(), case: case(), sig: "read_file-differs-from-canonical".into(), detail: first_diff(&base.canon, &o), bytes: Some(bytes), extra: json!({"base": base.name}) }),
+            Err(m) => ctx.violation(Violation { family: fam.into(), case: case(), sig: format!("read_file:{}", sig_of(&m)), detail: m, bytes: Some(bytes), extra: json!({"base": base.name}) }),
+        }
     }
     let c = conform(ctx, fam, case, f, &base.want);
     if let Some(o) = &c.obs {
@@ -319,14 +341,17 @@ pub fn run(ctx: &Ctx) -> i32 {
         let coords = coords_of(&base.file);
         let dims: Vec<usize> = coords.iter().map(|c| c.n).collect();
         let vecs = ball_vec(&dims, *k);
-        ctx.family(&fam, vecs.len() as u64, &format!("{}: all vectors within Hamming distance {} of the canonical encoding over {} choice points (cel storage raw/zlib0-9, tilemap/tileset zlib level, chunk-count style, ignorable chunk at every boundary, trailing bytes per chunk, bytes after the last frame, unused header and layer fields, zero pixel-ratio component, redundant legacy palette, cel chunk order)", base.name, k, coords.len()), true);
+        ctx.family(&fam, vecs.len() as u64, &format!("{}: all vectors within Hamming distance {} of the canonical encoding over {} choice points (loaded through AsepriteFile::read, and for single deviations and size-field / tail variants also through read_file on a temporary file; cel storage raw/zlib0-9, tilemap/tileset zlib level, chunk-count style, ignorable chunk at every boundary, trailing bytes per chunk, bytes after the last frame, unused header and layer fields, zero pixel-ratio component, redundant legacy palette, cel chunk order)", base.name, k, coords.len()), true);
         vecs.par_iter().for_each(|v| {
             let case = || describe(&coords, v);
             if !ctx.wants(&fam, &case) {
                 return;
             }
             let f = apply(&base.file, &coords, v, None);
-            check_variant(ctx, &fam, base, &case, &f);
+            // single deviations, and anything touching the size field or the tail, also go through read_file
+            let nz = v.iter().filter(|x| **x != 0).count();
+            let touches_size = coords.iter().zip(v.iter()).any(|(c, x)| *x != 0 && matches!(c.choice, Choice::Tail | Choice::HeaderField(0)));
+            check_variant(ctx, &fam, base, &case, &f, nz <= 1 || touches_size);
         });
         if base.name == "b1" {
             ctx.sample(json!({"family": fam, "case": describe(&coords, &vecs[vecs.len() / 3]), "meaning": "encoding choices that differ from the canonical file; whole-API observation must equal the canonical one"}));
@@ -340,7 +365,7 @@ pub fn run(ctx: &Ctx) -> i32 {
                 let v: Vec<usize> = coords.iter().map(|c| if c.n > 1 { 1 + (j - 1) % (c.n - 1) } else { 0 }).collect();
                 let case = || format!("uniform j={}", j);
                 let f = apply(&base.file, &coords, &v, None);
-                check_variant(ctx, &fam_u, base, &case, &f);
+                check_variant(ctx, &fam_u, base, &case, &f, true);
             }
         }
         // the full pixel-ratio sweep
@@ -351,7 +376,7 @@ pub fn run(ctx: &Ctx) -> i32 {
             (0..512usize).into_par_iter().for_each(|kk| {
                 let case = || format!("ratio#{}", kk);
                 let f = apply(&base.file, &coords, &zero, Some(kk));
-                check_variant(ctx, &fam_p, base, &case, &f);
+                check_variant(ctx, &fam_p, base, &case, &f, kk % 64 == 0);
             });
         }
     }
